@@ -32,10 +32,14 @@ type c08Case struct {
 	Peers         int  `json:"peers"`
 	Topics        int  `json:"topics"`
 	Ops           []c08Op `json:"ops"`
+	// Opp: opportunistic grafting is live: the peers with an odd index have application score 2, the threshold is 1 and
+	// the check runs every second heartbeat (the median of a mesh of zero-score peers is below the threshold)
+	Opp bool `json:"opportunistic,omitempty"`
 }
 
 func c08Gen(rt *rapid.T) c08Case {
 	var c c08Case
+	c.Opp = rapid.IntRange(0, 2).Draw(rt, "opp") == 0
 	c.D = rapid.IntRange(2, 4).Draw(rt, "D")
 	c.Dlo = rapid.IntRange(1, c.D).Draw(rt, "Dlo")
 	c.Dhi = rapid.IntRange(c.D, c.D+3).Draw(rt, "Dhi")
@@ -98,13 +102,34 @@ func c08RunInBubble(t *testing.T, c c08Case, res *vfResult) {
 	gp.PruneBackoff, gp.UnsubscribeBackoff = time.Duration(c.PruneS)*time.Second, time.Duration(c.UnsubS)*time.Second
 	gp.GraftFloodThreshold = time.Duration(c.FloodMs) * time.Millisecond
 	gp.OpportunisticGraftPeers = 0
+	if c.Opp {
+		gp.OpportunisticGraftPeers, gp.OpportunisticGraftTicks = 2, 2
+	}
 	if err := gp.validate(); err != nil {
 		res.Inconclusive = "generated parameters refused: " + err.Error()
 		return
 	}
 	// scoring on with every weight zero: behaviour penalties are counted but change no score
-	score := WithPeerScore(&PeerScoreParams{AppSpecificScore: func(peer.ID) float64 { return 0 }, DecayInterval: time.Hour, DecayToZero: 0.01,
-		BehaviourPenaltyDecay: 0.999, Topics: map[string]*TopicScoreParams{}}, &PeerScoreThresholds{AcceptPXThreshold: 1000})
+	app := func(peer.ID) float64 { return 0 }
+	thr := &PeerScoreThresholds{AcceptPXThreshold: 1000}
+	weight := 0.0
+	if c.Opp {
+		odd := map[peer.ID]bool{}
+		for i := 1; i <= c.Peers; i += 2 {
+			odd[vfPeer(i).ID] = true
+		}
+		app = func(p peer.ID) float64 {
+			if odd[p] {
+				return 2
+			}
+			return 0
+		}
+		thr.OpportunisticGraftThreshold = 1
+		weight = 1
+		res.label("opportunistic-grafting-live")
+	}
+	score := WithPeerScore(&PeerScoreParams{AppSpecificScore: app, AppSpecificWeight: weight, DecayInterval: time.Hour, DecayToZero: 0.01,
+		BehaviourPenaltyDecay: 0.999, Topics: map[string]*TopicScoreParams{}}, thr)
 	n, err := newVfNode(t, vfNodeCfg{Router: "gossipsub", Params: &gp, ManualHeartbeat: true, Opts: []Option{score, WithPeerOutboundQueueSize(c.Queue)}})
 	if err != nil {
 		res.Inconclusive = "constructor refused: " + err.Error()
